@@ -92,7 +92,20 @@ func execC09(seg []Ev) []Ev {
 				// configure quotes / separators in an order that never makes them collide with the defaults
 				t.SetFieldSeparators([]rune{0x1})
 				t.SetQuoteSymbols(quotes)
-				if cfg == "getset" && len(seps) == 1 {
+				if cfg == "after-other" {
+					// the same instance served another dialect first
+					t.SetFieldSeparators([]rune{';'})
+					t.SetQuoteSymbols([]rune{'\''})
+					t.SetDecodeStrings(true)
+					t.TokenizeBuffer("a;'b;c'\r\n;d")
+					t.SetFieldSeparators([]rune{0x1})
+					t.SetQuoteSymbols(quotes)
+					t.SetFieldSeparators(seps)
+				} else if cfg == "doubled" {
+					// every separator and quote character listed twice
+					t.SetFieldSeparators(append(append([]rune{}, seps...), seps...))
+					t.SetQuoteSymbols(append(append([]rune{}, quotes...), quotes...))
+				} else if cfg == "getset" && len(seps) == 1 {
 					// the list handed out by the getter, changed and handed back
 					buf := t.FieldSeparators()
 					buf[0] = seps[0]
@@ -162,8 +175,13 @@ func genC09(g *Gen) {
 			plans = append(plans, prow)
 		}
 		cfg := "set"
-		if len(seps) == 1 && r.Intn(3) == 0 {
+		switch x := r.Intn(9); {
+		case len(seps) == 1 && x < 3:
 			cfg = "getset"
+		case x == 3 || x == 4:
+			cfg = "after-other"
+		case x == 5:
+			cfg = "doubled"
 		}
 		g.Run(gen, []Ev{{"op": "csv", "seps": cpsR(seps), "quotes": cpsR(quotes), "eol": cps(eol), "table": table, "plans": plans, "cfg": cfg}})
 	}
